@@ -446,17 +446,38 @@ Definition verdict_code (v : c04_verdict) : Z :=
   match v with V_ok => 0%Z | V_known 0 => 1%Z | V_known 1 => 3%Z | V_known 2 => 4%Z | V_known _ => 5%Z | V_bad => 2%Z end.
 
 (** C04 / C18 on the final view of a history: 0 = as declared, 1 = only known-finding classes differ, 2 = violated *)
+(** Classes that were not created through the meta-class can only be roots and mix-ins of a hierarchy built on it (a
+    sub-class of a meta class is a meta class).  What such a class declares for a member is combined like any other
+    class's as long as it does not itself override a definition of its own (plain) ancestors - nothing is inherited
+    across such an override. *)
+Definition member_clean (meta : nat -> bool) (decls : list cdecl) (mro : nat -> list nat) (k : nat) (name : string) (acc : mkind)
+  : bool :=
+  forallb (fun c => meta c ||
+                    match definers decls mro c name acc with
+                    | (c', _) :: rest => negb (Nat.eqb c' c) || is_nil rest
+                    | [] => true
+                    end) (mro k).
+
+Definition view_clean (meta : nat -> bool) (decls : list cdecl) (mro : nat -> list nat) (k : nat) (name : string) (m : mview) : bool :=
+  match m with
+  | VFunc kd _ => member_clean meta decls mro k name kd
+  | VProp _ _ _ => member_clean meta decls mro k name MGet && member_clean meta decls mro k name MSet
+                   && member_clean meta decls mro k name MDel
+  | _ => true
+  end.
+
 Definition spec_C04_code_h (errs : list (option string)) (c : ecase) (w_model : world) (final : wview) : Z :=
   let decls := class_decls_h (e_ops c) errs in
   let mro := fun k => mro_of w_model k in
-  let all_meta := fun k => forallb (fun j => match get_class w_model j with Some co => co_meta co | None => false end) (mro k) in
+  let meta := fun j => match get_class w_model j with Some co => co_meta co | None => false end in
+  let all_meta := fun k => forallb meta (mro k) in
   verdict_code
     (fold_left worst
        (map (fun kc =>
                let k := fst kc in
                if negb (is_live w_model k) then V_ok else
                (* the property is about hierarchies built on the contract-inheriting base class/metaclass *)
-               if negb (all_meta k) then V_ok else
+               if negb (meta k) then V_ok else
                (* a precondition added to a member after its class was created lands in the first group - with
                   inherited groups that is unsupported (the library asserts groups are merged by the meta-class only) *)
                let late := fun name => existsb (fun op => match op with
@@ -464,9 +485,11 @@ Definition spec_C04_code_h (errs : list (option string)) (c : ecase) (w_model : 
                                                               String.eqb n name && nat_in j (mro k)
                                                           | _ => false end) (e_ops c) in
                worst (check_members decls mro k (e_names c)
-                                    (map (fun nm => if late (fst nm) then VAbsent else snd nm)
+                                    (map (fun nm => if late (fst nm) || negb (view_clean meta decls mro k (fst nm) (snd nm))
+                                                    then VAbsent else snd nm)
                                          (combine (e_names c) (cv_members (snd kc)))))
-                     (if zset_eqb (cv_invs (snd kc)) (declared_invs decls mro k) then V_ok else V_bad))
+                     (* the invariants of classes that are not meta classes are not combined by the library *)
+                     (if negb (all_meta k) || zset_eqb (cv_invs (snd kc)) (declared_invs decls mro k) then V_ok else V_bad))
             (combine (seq 0 (List.length (wv_classes final))) (wv_classes final)))
        V_ok).
 
